@@ -301,8 +301,9 @@ def validateArgs (O : PyOracle) (passages : List (Line × PPassage)) : List (Lin
 /-- `parse(source)` -/
 def parseText (O : PyOracle) (source : Line) : PM J := do
   let lines : Lines := (stripDirectiveComments (splitNl source)).toArray
-  let n := lines.size + 2
-  let s ← coreLoop O lines (n * n) 0 {}
+  -- three units of fuel per line (one per iteration, two handed down to nested block extractors) are always enough:
+  -- `Proofs/C11e.lean`
+  let s ← coreLoop O lines (3 * lines.size + 3) 0 {}
   let passages := s.passages.map fun kv => (kv.1, { kv.2 with content := trimJ (cleanupJ kv.2.content []) })
   if s.locations.any (fun kv => kv.2.length > 1) then valErr "Duplicate passage names"
   validateArgs O passages passages
